@@ -186,6 +186,20 @@ pub struct Model {
     /// scheduled energy of the host calls so far
     pub cost:     u128,
     pub per_call: Vec<u128>,
+    /// bumped when an interrupt is resumed with "the state was updated": every handle of an
+    /// earlier generation is then invalid
+    pub generation:   u64,
+    /// return data of resumed interrupts: parameter indices 1, 2, ...
+    pub extra_params: Vec<Vec<u8>>,
+}
+
+/// The answer the chain gives to an interrupt.
+#[derive(Clone, Debug, PartialEq, Eq)]
+pub enum Resp {
+    Success { new_balance: u64, data: Option<Vec<u8>> },
+    Reject { code: i32, data: Vec<u8> },
+    /// the environment failures, by their documented code 1..=0xb
+    Fail(u8),
 }
 
 #[derive(Clone, Debug, PartialEq, Eq)]
@@ -221,7 +235,7 @@ pub struct CallResult {
 
 impl Model {
     pub fn new(ctx: Ctx, mem: Vec<u8>, init: &[(Vec<u8>, Vec<u8>)]) -> Model {
-        let mut m = Model { mem, ctx, map: BTreeMap::new(), next_inc: 0, locks: vec![], handles: vec![], iters: vec![], logs: vec![], rv: vec![], cost: 0, per_call: vec![] };
+        let mut m = Model { mem, ctx, map: BTreeMap::new(), next_inc: 0, locks: vec![], handles: vec![], iters: vec![], logs: vec![], rv: vec![], cost: 0, per_call: vec![], generation: 0, extra_params: vec![] };
         for (k, v) in init {
             let inc = m.next_inc;
             m.next_inc += 1;
@@ -237,12 +251,11 @@ impl Model {
     fn new_handle(&mut self, key: &[u8]) -> u64 {
         let inc = self.map[key].inc;
         self.handles.push((key.to_vec(), inc));
-        (self.handles.len() - 1) as u64
+        (self.generation << 32) | (self.handles.len() - 1) as u64
     }
 
-    /// generation 0 throughout (no interrupt is resumed inside one execution)
     fn handle(&self, raw: u64) -> Option<Vec<u8>> {
-        if raw >> 32 != 0 {
+        if raw >> 32 != self.generation {
             return None;
         }
         let (key, inc) = self.handles.get((raw & 0xffff_ffff) as usize)?;
@@ -253,7 +266,7 @@ impl Model {
     }
 
     fn iter_mut(&mut self, raw: u64) -> Option<&mut Iter> {
-        if raw >> 32 != 0 {
+        if raw >> 32 != self.generation {
             return None;
         }
         self.iters.get_mut((raw & 0xffff_ffff) as usize)
@@ -265,6 +278,49 @@ impl Model {
             Some(s..s + l)
         } else {
             None
+        }
+    }
+
+    fn param(&self, idx: u32) -> Option<&[u8]> {
+        if idx == 0 {
+            Some(&self.ctx.parameter)
+        } else {
+            self.extra_params.get(idx as usize - 1).map(|v| &v[..])
+        }
+    }
+
+    /// The interrupted `invoke` / `upgrade` returns: the value it returns to the contract.
+    /// `updated`: the chain says the instance state was changed meanwhile (a re-entrant call
+    /// worked on a fresh copy of the persisted state and set this entry): every handle and
+    /// iterator -- and with the iterators their locks -- are gone.
+    pub fn resume(&mut self, resp: &Resp, updated: Option<(&[u8], &[u8])>) -> u64 {
+        let state_updated = updated.is_some();
+        if let Some((k, v)) = updated {
+            self.generation += 1;
+            self.handles.clear();
+            self.iters.clear();
+            self.locks.clear();
+            let inc = self.next_inc;
+            self.next_inc += 1;
+            self.map.insert(k.to_vec(), Entry { inc, val: v.to_vec() });
+        }
+        match resp {
+            Resp::Success { new_balance, data } => {
+                self.ctx.self_balance = *new_balance;
+                let tag: u64 = if state_updated { 1 << 23 } else { 0 };
+                match data {
+                    Some(d) => {
+                        self.extra_params.push(d.clone());
+                        (self.extra_params.len() as u64 | tag) << 40
+                    }
+                    None => tag << 40,
+                }
+            }
+            Resp::Reject { code, data } => {
+                self.extra_params.push(data.clone());
+                ((self.extra_params.len() as u64) << 40) | (*code as u32 as u64)
+            }
+            Resp::Fail(k) => (*k as u64) << 32,
         }
     }
 
@@ -288,15 +344,15 @@ impl Model {
             };
         }
         match f {
-            F::GetParameterSize => ret = Some(if a32(0) == 0 { self.ctx.parameter.len() as u32 } else { u32::MAX } as u64),
+            F::GetParameterSize => ret = Some(match self.param(a32(0)) { Some(p) => p.len() as u32, None => u32::MAX } as u64),
             F::GetParameterSection => {
                 let (idx, start, len, off) = (a32(0), a32(1), a32(2), a32(3));
                 cost += k::copy_parameter_cost(len) as u128;
-                if idx != 0 {
+                if self.param(idx).is_none() {
                     ret = Some(u32::MAX as u64);
                 } else {
                     let r = rng!(start, len);
-                    let p = self.ctx.parameter.clone();
+                    let p = self.param(idx).unwrap().to_vec();
                     let end = (off as usize + len as usize).min(p.len());
                     if (off as usize) > end {
                         trap = true;
@@ -443,7 +499,7 @@ impl Model {
                     } else {
                         self.locks.push(key.clone());
                         self.iters.push(Iter { root: key, keys: under, pos: 0, current: None, deleted: false });
-                        (self.iters.len() - 1) as u64
+                        (self.generation << 32) | (self.iters.len() - 1) as u64
                     });
                 }
             }
@@ -569,7 +625,7 @@ impl Model {
                 // a handle that was handed out (even if its entry has been deleted since) with a
                 // size above the limit reports "too large"; the liveness of the entry is looked
                 // at afterwards
-                let handed_out = a[0] >> 32 == 0 && ((a[0] & 0xffff_ffff) as usize) < self.handles.len();
+                let handed_out = a[0] >> 32 == self.generation && ((a[0] & 0xffff_ffff) as usize) < self.handles.len();
                 ret = Some(match self.handle(a[0]) {
                     _ if handed_out && new > k::MAX_ENTRY_SIZE => 0,
                     None => INVALID as u64,
